@@ -200,7 +200,7 @@ def run_sharded(kind, which, cases, workdir, tag):
 
 
 # ------------------------------------------------------------------ normalisation
-_PANIC = re.compile(r'PANIC[^;,:|]*')
+_PANIC = re.compile(r'PANIC[^;,|]*')
 
 
 def fields(line):
@@ -218,7 +218,7 @@ def normalize(line):
     if line.startswith('BADCASE'):
         return 'BADCASE'
     line = _PANIC.sub('PANIC', line)
-    if 'aused=' in line or 'rused=' in line:
+    if ('aused=' in line or 'rused=' in line) and 'resume=' not in line:
         f = fields(line)
         if 'aused' in f and not f.get('async', '').startswith('ok'):
             line = re.sub(r'aused=[^;]*', 'aused=?', line)
